@@ -37,6 +37,23 @@ request behind `start_kex(_test_old_style=True)`, which the harness reaches thro
 on that one client Transport (no such switch in the tree = inconclusive, not a harness error). e / f boundary values
 (both roles), every modulus size (lying server, encodings rotating) and three honest-server sizes are run that way;
 the MITM's forged replies use the old-style hash then.
+History of the process ("group-history:*" classes): the fixed groups (group1 1024 bits, group14 2048, group16 4096) share one
+engine class, so what a process did with one group may leak into the next exchange. The fixed-group cases are therefore run
+as ONE history per process: round-robin over the group sizes in a chosen order, the tested role alternating - the process
+first uses order[0], and exchanges with order[i+1] directly follow exchanges with order[i]. Quick: descending sizes (a bound or
+table left over from a LARGER group is what could let a value out of range for the smaller one through: p, p+1, 2p, 2p+1 of the
+small group lie inside the large group's range; class out-of-domain:in-range-for-a-larger-group-used-earlier-in-the-process);
+thorough: worker w runs the w-th of the 6 orders; the drawn cases mix all fixed groups at random. A violation seen after other
+fixed-group exchanges is saved with "process_history" (the groups exchanged before, first 3 and last 5 when many), which
+replay() re-creates by honest exchanges first. When the HONEST part of an exchange is refused before the value under test is
+sent (e.g. a stale bound of a smaller group), the case is inconclusive (counted, noted), not a harness error.
+Interpreter configuration ("interpreter:*" / "child-interpreter:*" classes): a sub-sample of the enumerated boundary domain
+(values right outside the domain on each side, sizes right / far outside the range, in-range controls; every family, both
+roles, both request styles; thorough: the worker's whole share) also runs through the same run_case in a CHILD interpreter
+started with `python -O` (assert statements and __debug__ blocks compiled away) - vlib/subrun.py; the child is a second
+process, so it also gets another group order. Its cases, counts and violations are folded back (violations: bucket +
+":python-O", or ":fresh-process" when the same history shows it without -O too; saved as {"subrun": {pyflags, history}},
+which replay() runs in a fresh child again); a child that fails is an inconclusive entry, never a verdict.
 Oracle: value outside [1, p-1] / malformed or off-curve point / all-zero X25519 result / wrong X25519
 length / gex p outside 1024..8192 bits  =>  the tested side's handshake fails: it never sends NEWKEYS,
 never sets initial_kex_done, start_client / the server's negotiation ends with an error.
@@ -44,7 +61,7 @@ In-domain values carry no obligation (recorded as trivial cases, nothing asserte
 """
 from hypothesis import strategies as st
 
-from vlib import core, mitm, peers
+from vlib import core, mitm, peers, subrun
 from vlib import refssh as R
 
 PROPERTY = "C08"
@@ -59,7 +76,14 @@ RULE = (
     "GEX_REQUEST_OLD; classes gex-request:old, <role>:gex-value:old-request, gex-group:<in|out-of>-range:old-request): the 12 e/f "
     "boundary values for both roles, every modulus size from the lying server, three from an honest server, one in three of the drawn "
     "gex cases; plus hypothesis-drawn "
-    "random out-of-range integers (x drawn encoding), off-curve coordinates and byte strings. non-trivial = value outside the accepted domain "
+    "random out-of-range integers (x drawn encoding), off-curve coordinates and byte strings; history of the process: the fixed-group cases "
+    "form one sequence per process, round-robin over the group sizes in a given order with the role alternating (quick: 4096, 2048, 1024 - "
+    "every smaller group is used right after a larger one; thorough: worker w takes the w-th of the 6 orders; drawn cases mix group1/14/16), "
+    "classes group-history:* and out-of-domain:in-range-for-a-larger-group-used-earlier-in-the-process; interpreter configuration: a sub-sample "
+    "of the boundary domain (0, p, p+1, 1-p per role x method x request style; infinity / off-curve / out-of-field point; zero, small-order, short "
+    "X25519 string; moduli of 512, 1023, 1024, 8193, 16384 bits from the lying and the honest server; thorough: the worker's whole share) is run "
+    "by the same code in a child `python -O` (fresh process, next group order), classes interpreter:* / child-interpreter:*, cases distinct by "
+    "their child/flags field. non-trivial = value outside the accepted domain "
     "(reference classification in the harness); distinct by full case"
 )
 
@@ -488,8 +512,71 @@ def run_gexwire(ctx, case):
     return True
 
 
+# ----------------------------------------------------------------------------- process history (fixed groups)
+
+GROUP_BITS = {"diffie-hellman-group1-sha1": 1024, "diffie-hellman-group14-sha1": 2048, "diffie-hellman-group14-sha256": 2048, "diffie-hellman-group16-sha512": 4096}
+GROUP_ORDERS = [(4096, 2048, 1024), (2048, 1024, 4096), (4096, 1024, 2048), (2048, 4096, 1024), (1024, 4096, 2048), (1024, 2048, 4096)]
+_FIXED_USED = []  # kex names of the fixed-group exchanges this PROCESS has performed so far, in order (consecutive repeats collapsed)
+
+
+def _note_fixed(kex):
+    if not _FIXED_USED or _FIXED_USED[-1] != kex:
+        _FIXED_USED.append(kex)
+
+
+def history_classes(kex, val, bad):
+    """Evidence: where this fixed-group exchange stands in the history of the process (which groups were used before it)."""
+    bits = GROUP_BITS[kex]
+    before = [GROUP_BITS[k] for k in _FIXED_USED]
+    if not before:
+        cl = ["group-history:first-fixed-group-exchange-of-the-process"]
+    else:
+        cl = ["group-history:first-exchange-of-the-process-used-a-%s-group" % ("larger" if before[0] > bits else "smaller" if before[0] < bits else "same-size")]
+        cl.append("group-history:previous-exchange-used-a-%s-group" % ("larger" if before[-1] > bits else "smaller" if before[-1] < bits else "same-size"))
+    larger = [k for k in _FIXED_USED if GROUP_BITS[k] > bits]
+    if bad and isinstance(val, int) and any(1 <= val <= mitm.fixed_group_prime(k) - 1 for k in larger):
+        cl.append("out-of-domain:in-range-for-a-larger-group-used-earlier-in-the-process")
+    return cl
+
+
+def order_groups(cases, order):
+    """The fixed-group cases of `cases` re-arranged (inside the slots they occupy) into the history of fixed groups one
+    process goes through: round-robin over the group sizes in the order `order` (so the process first uses order[0], and
+    every exchange with order[i+1] directly follows one with order[i] for as long as both have cases left), the tested
+    role alternating inside each group. Same cases, another sequence."""
+    idx = [i for i, c in enumerate(cases) if c.get("kex") in GROUP_BITS]
+    queues = {}
+    for bits in order:
+        q = [cases[i] for i in idx if GROUP_BITS[cases[i]["kex"]] == bits]
+        a, b = [c for c in q if c["role"] == "client"], [c for c in q if c["role"] != "client"]
+        queues[bits] = [c for pair in zip(a, b) for c in pair] + a[len(b) :] + b[len(a) :]
+    picked = []
+    while any(queues.values()):
+        for bits in order:
+            if queues[bits]:
+                picked.append(queues[bits].pop(0))
+    out = list(cases)
+    for i, c in zip(idx, picked):
+        out[i] = c
+    return out
+
+
+def run_prelude(ctx, kexes):
+    """Honest exchanges with the fixed groups `kexes`, in order: what a saved case says the process had done before it."""
+    for kex in kexes:
+        r = _session(kex, [], None)
+        _note_fixed(kex)
+        ctx.count("group-history:prelude-exchange:" + ("completed" if r["ce"] is None and r["c_done"] else "failed"))
+
+
 def run_case(ctx, case):
+    if subrun.is_history(case):
+        return subrun.replay_history(ctx, __name__, case)
     self_check()
+    if case.get("process_history") and not _FIXED_USED:
+        # (a saved violation that showed after other fixed-group exchanges in the same process: re-create that history)
+        run_prelude(ctx, case["process_history"])
+    case = {k: v for k, v in case.items() if k != "process_history"}
     role, kex, spec = case["role"], case["kex"], tuple(case["value"])
     fam = mitm.kex_family(kex)
     pack = [(2, mitm.group_prime(1024))] if fam == "gex" else []
@@ -571,9 +658,20 @@ def run_case(ctx, case):
     except OldRequestUnavailable:
         ctx.inconc("gex-request:old-style-not-available-in-this-tree")
         return True
+    hist = history_classes(kex, val, bad) if fam == "dh" else []
+    before = list(_FIXED_USED)
+    if fam == "dh" and 30 in r["c_types"]:
+        _note_fixed(kex)
     if not applied:
-        raise core.HarnessError("edit never applied: %r (client=%r server=%r, c2s %r s2c %r)" % (case, r["ce"], r["se"], r["c_types"], r["s_types"]))
-    cl = [role, kind, "kex:" + kex, "out-of-domain" if bad else "in-domain"]
+        carrier, sent = (init_type, r["c_types"]) if role == "server" else (reply_type, r["s_types"])
+        if carrier in sent or (r["ce"] is None and r["se"] is None):
+            raise core.HarnessError("edit never applied: %r (client=%r server=%r, c2s %r s2c %r)" % (case, r["ce"], r["se"], r["c_types"], r["s_types"]))
+        # The message that was to carry the value never went out: the HONEST part of the exchange (paramiko's own in-range
+        # values) was refused before. Nothing this property obliges - and no verdict on this case either.
+        ctx.inconc("honest-exchange-failed-before-the-value-under-test-was-sent:%s:%s" % (role, kex))
+        ctx.note("last-honest-exchange-failure", "%r: client=%r server=%r, c2s %r s2c %r; fixed groups used earlier in this process: %r" % (case, r["ce"], r["se"], r["c_types"], r["s_types"], before))
+        return True
+    cl = [role, kind, "kex:" + kex, "out-of-domain" if bad else "in-domain"] + hist
     if fam in ("dh", "gex"):
         cl.append("mpint-encoding:" + (enc or "canonical"))
         if bad and wire is not None:
@@ -588,6 +686,13 @@ def run_case(ctx, case):
         if forged and r["ce"] is None:
             ctx.count("control:signed-in-range-reply-accepted")
         return True
+    vcase, vhist = case, ""
+    if fam == "dh" and before and before != [kex]:
+        # state carried from earlier exchanges of this process may matter: the saved case re-creates them first
+        # (the first and the latest ones when there were many)
+        short = before if len(before) <= 8 else before[:3] + before[-5:]
+        vcase = dict(case, process_history=short)
+        vhist = "; fixed groups exchanged earlier in this process (%d exchanges%s): %s" % (len(before), "" if short is before else ", first 3 and last 5 shown", ", ".join(short))
     if role == "server":
         if r["se"] is None and not r["s_newkeys"] and not r["s_done"]:
             ctx.inconc("server-neither-failed-nor-proceeded-in-time")
@@ -596,8 +701,8 @@ def run_case(ctx, case):
             ctx.violation(
                 "invalid-peer-value-rejected",
                 "server:%s:%s%s%s" % (fam, _bucket(fam, spec, val), _noncanon(case), ":old-style-request" if old else ""),
-                case,
-                "server got %s%s; negotiation error %r, initial_kex_done=%s, server sent types %r" % (_show(val), _showwire(wire), r["se"], r["s_done"], r["s_types"]),
+                vcase,
+                "server got %s%s; negotiation error %r, initial_kex_done=%s, server sent types %r%s" % (_show(val), _showwire(wire), r["se"], r["s_done"], r["s_types"], vhist),
             )
             return False
     else:
@@ -608,8 +713,8 @@ def run_case(ctx, case):
             ctx.violation(
                 "invalid-peer-value-rejected",
                 "client:%s:%s%s%s%s" % (fam, _bucket(fam, spec, val), ":signed" if forged else "", _noncanon(case), ":old-style-request" if old else ""),
-                case,
-                "client got %s%s (%s); start_client -> %r, initial_kex_done=%s, client sent types %r" % (_show(val), _showwire(wire), "reply re-signed by the host key" if forged else "plain edit", r["ce"], r["c_done"], r["c_types"]),
+                vcase,
+                "client got %s%s (%s); start_client -> %r, initial_kex_done=%s, client sent types %r%s" % (_show(val), _showwire(wire), "reply re-signed by the host key" if forged else "plain edit", r["ce"], r["c_done"], r["c_types"], vhist),
             )
             return False
     return True
@@ -718,12 +823,48 @@ def boundary_domain(quick):
     return cases
 
 
+CHILD_DH = [("0", 0), ("p", 0), ("p", 1), ("-p", 1)]
+CHILD_EC = ["infinity", "offcurve", "coord-ge-p"]
+CHILD_X = [("small", 0), ("small", 2), ("len", 31)]
+CHILD_SIZES = [512, 1023, 1024, 8193, 16384]
+
+
+def child_sample(dom, order, full=False):
+    """Sub-sample of the enumerated boundary domain `dom` for a child interpreter (another interpreter configuration,
+    another history of groups): per role and method the values right outside the accepted domain on each side, the
+    modulus sizes right outside / far outside the range and one in-range control, e / f in canonical encoding."""
+    if full:
+        return order_groups(dom, order)
+    out, seen = [], set()
+    for c in dom:
+        spec, kex = tuple(c["value"]), c["kex"]
+        fam = mitm.kex_family(kex)
+        if spec[0] != "gexwire" and (c.get("enc") or c.get("genc") or c.get("sign") is False):
+            continue  # (the lying gex server's cases keep whatever encoding the enumeration gave them: first one per size)
+        if spec[0] in ("gexwire", "gexsize"):
+            key = (spec[0], spec[1], c.get("req"))
+            keep = spec[1] in CHILD_SIZES and (spec[0] == "gexwire" or spec[2] == "2")
+        elif fam in ("dh", "gex"):
+            key = (c["role"], kex, spec, c.get("req"))
+            keep = spec in CHILD_DH
+        elif fam == "ecdh":
+            key = (c["role"], kex, spec[0])
+            keep = kex == EC_KEX[0] and spec[0] in CHILD_EC
+        else:
+            key = (c["role"], spec)
+            keep = spec in CHILD_X
+        if keep and key not in seen:
+            seen.add(key)
+            out.append(c)
+    return order_groups(out, order)
+
+
 def random_cases():
     role = st.sampled_from(["client", "server"])
     big = st.integers(2, 2**1100)
     dh = st.tuples(
         role,
-        st.sampled_from(["diffie-hellman-group1-sha1", "diffie-hellman-group1-sha1", GEX_KEX[0], GEX_KEX[1], "diffie-hellman-group14-sha1"]),
+        st.sampled_from(["diffie-hellman-group1-sha1", "diffie-hellman-group1-sha1", GEX_KEX[0], GEX_KEX[1], "diffie-hellman-group14-sha1", "diffie-hellman-group14-sha256", "diffie-hellman-group16-sha512"]),
         st.one_of(
             st.tuples(st.just("p"), big),  # random > p
             st.tuples(st.just("2p"), big),
@@ -785,6 +926,15 @@ def run(ctx):
     ctx.exclude("O1:negative-gex-modulus(never generated)")
     dom = boundary_domain(ctx.quick)
     mine = [c for i, c in enumerate(dom) if i % ctx.nworkers == ctx.worker]
+    # history of fixed groups this process goes through (a process has only one): quick = descending sizes (a bound or
+    # table left over from a LARGER group is what could let an out-of-range value through); thorough: worker w takes the
+    # w-th of the 6 orders. The child interpreter below is a second process: it gets the next order.
+    order = GROUP_ORDERS[ctx.worker % len(GROUP_ORDERS)]
+    mine = order_groups(mine, order)
+    ctx.note("group-order:worker-%d" % ctx.worker, "fixed groups first used in the order %r (child interpreter: %r)" % (order, GROUP_ORDERS[(ctx.worker + 1) % len(GROUP_ORDERS)]))
+    # interpreter configuration: a sub-sample of the boundary domain (thorough: all of this worker's share) runs in a child
+    # `python -O` (asserts and __debug__ blocks compiled away) through the same run_case, in parallel with this process
+    child = subrun.spawn(ctx, __name__, child_sample(mine if not ctx.quick else dom, GROUP_ORDERS[(ctx.worker + 1) % len(GROUP_ORDERS)], full=not ctx.quick), pyflags=("-O",), budget_s=60 * _bs if ctx.quick else 600 * _bs)
     done_all = True
     for c in mine:
         if ctx.out_of_time():
@@ -794,7 +944,9 @@ def run(ctx):
     if done_all:
         ctx.exhaustive = True
         ctx.note("exhaustive_over", "the boundary list (%d cases: role x kex x boundary value); random values are sampled" % len(dom))
-    ctx.explore(random_cases(), lambda c: run_case(ctx, c), ctx.scale(120, 6000), shrink=False)
+    ctx.explore(random_cases(), lambda c: run_case(ctx, c), ctx.scale(105, 6000), shrink=False)
+    sub = subrun.collect(ctx, child, classes=["interpreter:python -O (asserts stripped)"])
+    ctx.note("child-interpreter", "python -O: %d cases, %d case errors, ok=%s" % (sub["ran"], sub["errors"], sub["ok"]))
     if ctx.classes.get("gex-group:lying-server") and not ctx.classes.get("control:lying-server-in-range-group:accepted"):
         ctx.inconc("gexwire:control-never-accepted(out-of-range verdicts of the lying gex server mean nothing)")
 
